@@ -10,11 +10,11 @@ Fixpoint trie_ind' (Q : trie -> Prop)
         ((fix go (ch : list (str * trie)) : forall c t, In (c, t) ch -> Q t :=
             match ch as ch0 return forall c t, In (c, t) ch0 -> Q t with
             | [] => fun c t F => False_ind (Q t) F
-            | (c0, t0) :: ch' =>
+            | p :: ch' =>
                 fun c t Hin =>
-                  match (Hin : (c0, t0) = (c, t) \/ In (c, t) ch') return Q t with
-                  | or_introl E => eq_ind t0 Q (trie_ind' Q H t0) t (f_equal snd E)
-                  | or_intror I => go ch' c t I
+                  match (Hin : p = (c, t) \/ In (c, t) ch') return Q t with
+                  | or_introl E => eq_ind (snd p) Q (trie_ind' Q H (snd p)) t (f_equal snd E)
+                  | or_intror Hi => go ch' c t Hi
                   end
             end) ch)
   end.
@@ -182,4 +182,142 @@ Proof.
       destruct Hin as [[_ Hin]|[_ ->]]; [eapply Hch; eauto|].
       apply IH. destruct (alookup c ch) as [t0|] eqn:L; simpl; [|apply twf_leaf].
       apply alookup_In in L. eapply Hch; eauto.
+Qed.
+
+(* ------------------------------------------------------------------ dead branches *)
+Definition fdb_children (ch : list (str * trie)) (br : path) : list path :=
+  (fix go (ch : list (str * trie)) : list path :=
+     match ch with
+     | [] => []
+     | (c, t') :: ch' => find_dead_branches t' (br ++ [c]) ++ go ch'
+     end) ch.
+
+Lemma fdb_eq : forall v ch br,
+  find_dead_branches (Tr v ch) br = fdb_children ch br ++ (if v then [] else [br]).
+Proof. reflexivity. Qed.
+
+Lemma fdb_children_In : forall ch br b,
+  In b (fdb_children ch br) <-> exists c t', In (c, t') ch /\ In b (find_dead_branches t' (br ++ [c])).
+Proof.
+  induction ch as [|[c0 t0] ch IH]; intros br b.
+  - simpl. split; [tauto|]. intros [c [t' [[] _]]].
+  - change (fdb_children ((c0, t0) :: ch) br) with (find_dead_branches t0 (br ++ [c0]) ++ fdb_children ch br).
+    rewrite in_app_iff, IH. split.
+    + intros [H|[c [t' [H1 H2]]]]; [exists c0, t0; split; [left; reflexivity|exact H]|exists c, t'; split; [right; exact H1|exact H2]].
+    + intros [c [t' [[E|H1] H2]]]; [inversion E; subst; left; exact H2|right; eauto].
+Qed.
+
+Lemma dead_spec : forall t, twf t -> forall br b,
+  In b (find_dead_branches t br) <-> exists q, b = br ++ q /\ t_has t q = true /\ t_col t q = false.
+Proof.
+  intro t. induction t as [v ch IH] using trie_ind'. intros Hwf br b.
+  inversion Hwf as [? ? Hnd Hch]; subst.
+  rewrite fdb_eq, in_app_iff, fdb_children_In. split.
+  - intros [[c [t' [Hin Hb]]]|Hb].
+    + apply (IH c t' Hin (Hch c t' Hin)) in Hb. destruct Hb as [q [E [H1 H2]]].
+      exists (c :: q). rewrite <- app_assoc in E. split; [exact E|].
+      rewrite t_has_cons, t_col_cons. rewrite (NoDup_alookup _ c t' ch Hnd Hin). auto.
+    + destruct v; [destruct Hb|]. destruct Hb as [<-|[]]. exists []. rewrite app_nil_r. auto.
+  - intros [q [E [H1 H2]]]. destruct q as [|c q].
+    + right. rewrite app_nil_r in E. subst b. unfold t_col in H2. simpl in H2. subst v. left. reflexivity.
+    + left. rewrite t_has_cons in H1. rewrite t_col_cons in H2.
+      destruct (alookup c ch) as [t'|] eqn:L; [|discriminate].
+      apply alookup_In in L. exists c, t'. split; [exact L|].
+      apply (IH c t' L (Hch c t' L)). exists q. rewrite <- app_assoc. auto.
+Qed.
+
+Lemma NoDup_app_disj' : forall X (a b : list X),
+  NoDup a -> NoDup b -> (forall x, In x a -> ~ In x b) -> NoDup (a ++ b).
+Proof.
+  induction a as [|x a IHa]; intros b0 Ha Hb Hd; simpl; [exact Hb|].
+  inversion Ha; subst. constructor.
+  - intro Hin. apply in_app_or in Hin. destruct Hin as [Hin|Hin]; [contradiction|].
+    apply (Hd x); [left; reflexivity|exact Hin].
+  - apply IHa; auto. intros y Hy. apply Hd. right. exact Hy.
+Qed.
+
+Lemma dead_NoDup : forall t, twf t -> forall br, NoDup (find_dead_branches t br).
+Proof.
+  intro t. induction t as [v ch IH] using trie_ind'. intros Hwf br.
+  inversion Hwf as [? ? Hnd Hch]; subst. rewrite fdb_eq.
+  assert (Hlen : forall c t' b, In (c, t') ch -> In b (find_dead_branches t' (br ++ [c])) ->
+                 exists q, b = br ++ c :: q).
+  { intros c t' b Hin Hb. apply (dead_spec t' (Hch c t' Hin)) in Hb. destruct Hb as [q [E _]].
+    exists q. rewrite E, <- app_assoc. reflexivity. }
+  assert (Hc : NoDup (fdb_children ch br)).
+  { clear Hwf. induction ch as [|[c0 t0] ch IHch]; [constructor|].
+    change (fdb_children ((c0, t0) :: ch) br) with (find_dead_branches t0 (br ++ [c0]) ++ fdb_children ch br).
+    simpl in Hnd. inversion Hnd as [|? ? Hn1 Hn2]; subst.
+    assert (NoDup (find_dead_branches t0 (br ++ [c0]))) by (apply (IH c0 t0); [left; reflexivity|apply (Hch c0 t0); left; reflexivity]).
+    assert (NoDup (fdb_children ch br)).
+    { apply IHch; auto.
+      - intros c t Hin. apply (IH c t). right. exact Hin.
+      - intros c t Hin. apply (Hch c t). right. exact Hin.
+      - intros c t' b Hin. apply (Hlen c t' b). right. exact Hin. }
+    apply NoDup_app_disj'; auto.
+    intros b Hb1 Hb2. destruct (Hlen c0 t0 b (or_introl eq_refl) Hb1) as [q1 E1].
+    apply fdb_children_In in Hb2. destruct Hb2 as [c [t' [Hin Hb2]]].
+    destruct (Hlen c t' b (or_intror Hin) Hb2) as [q2 E2].
+    rewrite E1 in E2. apply app_inv_head in E2. inversion E2; subst.
+    apply Hn1. apply (in_map fst) in Hin. exact Hin. }
+  destruct v; [rewrite app_nil_r; exact Hc|].
+  apply NoDup_rev in Hc. rewrite <- (rev_involutive (fdb_children ch br ++ [br])). apply NoDup_rev.
+  rewrite rev_app_distr. simpl. constructor; [|exact Hc].
+  intro Hin. apply in_rev in Hin. apply fdb_children_In in Hin. destruct Hin as [c [t' [Hin Hb]]].
+  destruct (Hlen c t' br Hin Hb) as [q E].
+  assert (length br = length (br ++ c :: q)) by (rewrite <- E; reflexivity).
+  rewrite app_length in H. simpl in H. lia.
+Qed.
+
+(* ------------------------------------------------------------------ build_tree and the colouring *)
+Definition any_prefix (q : path) (l : list path) : bool := existsb (is_prefix q) l.
+
+Lemma fold_insert : forall paths t q,
+  t_has (fold_left (fun t p => t_insert p t) paths t) q = t_has t q || any_prefix q paths /\
+  t_col (fold_left (fun t p => t_insert p t) paths t) q = t_col t q /\
+  (twf t -> twf (fold_left (fun t p => t_insert p t) paths t)).
+Proof.
+  induction paths as [|p paths IH]; intros t q; simpl.
+  - rewrite Bool.orb_false_r. auto.
+  - destruct (IH (t_insert p t) q) as [H1 [H2 H3]]. rewrite H1, H2, has_insert, col_insert.
+    split; [rewrite Bool.orb_assoc; reflexivity|]. split; [reflexivity|]. intro W. apply H3. apply twf_insert. exact W.
+Qed.
+
+Lemma fold_color : forall ks t q,
+  t_has (fold_left (fun t k => color_path k t) ks t) q = t_has t q || any_prefix q ks /\
+  t_col (fold_left (fun t k => color_path k t) ks t) q = t_col t q || any_prefix q ks /\
+  (twf t -> twf (fold_left (fun t k => color_path k t) ks t)).
+Proof.
+  induction ks as [|p ks IH]; intros t q; simpl.
+  - rewrite !Bool.orb_false_r. auto.
+  - destruct (IH (color_path p t) q) as [H1 [H2 H3]]. rewrite H1, H2, has_color, col_color.
+    split; [rewrite Bool.orb_assoc; reflexivity|]. split; [rewrite Bool.orb_assoc; reflexivity|].
+    intro W. apply H3. apply twf_color. exact W.
+Qed.
+
+(* the dead branches of the analysis: nodes of the existing tree that no key passes through *)
+Definition analysis_tree (existing ks : list path) : trie :=
+  fold_left (fun t k => color_path k t) ks (build_tree existing).
+
+Lemma analysis_dead : forall existing ks b,
+  In b (find_dead_branches (analysis_tree existing ks) []) <->
+  (is_nil b || any_prefix b existing) = true /\ any_prefix b ks = false.
+Proof.
+  intros existing ks b. unfold analysis_tree, build_tree.
+  destruct (fold_insert existing t_leaf b) as [I1 [I2 I3]].
+  destruct (fold_color ks (fold_left (fun t p => t_insert p t) existing t_leaf) b) as [C1 [C2 C3]].
+  rewrite dead_spec by (apply C3, I3, twf_leaf). simpl.
+  split.
+  - intros [q [<- [H1 H2]]]. rewrite C1, I1, t_has_leaf in H1. rewrite C2, I2, t_col_leaf in H2. simpl in H2.
+    split; [|exact H2]. rewrite H2, Bool.orb_false_r in H1. exact H1.
+  - intros [H1 H2]. exists b. split; [reflexivity|].
+    rewrite C1, C2, I1, I2, t_has_leaf, t_col_leaf, H1, H2. auto.
+Qed.
+
+Lemma analysis_dead_NoDup : forall existing ks, NoDup (find_dead_branches (analysis_tree existing ks) []).
+Proof.
+  intros. apply dead_NoDup. unfold analysis_tree, build_tree.
+  destruct (fold_insert existing t_leaf []) as [_ [_ I3]].
+  destruct (fold_color ks (fold_left (fun t p => t_insert p t) existing t_leaf) []) as [_ [_ C3]].
+  apply C3, I3, twf_leaf.
 Qed.
